@@ -431,4 +431,46 @@ Proof.
   fold (lookup t p). rewrite Hl. reflexivity.
 Qed.
 
+(* ---------- unlink ---------- *)
+
+Lemma assoc_remove : forall (t : fs) p q,
+  assoc B (remove B t p) q = if path_eqb p q then None else assoc B t q.
+Proof.
+  induction t as [|[k n] t IH]; intros p q; simpl.
+  - destruct (path_eqb p q); reflexivity.
+  - destruct (path_eqb k p) eqn:Ekp; simpl.
+    + apply path_eqb_eq in Ekp. subst k. rewrite IH. destruct (path_eqb p q); reflexivity.
+    + rewrite IH. destruct (path_eqb k q) eqn:Ekq; [|reflexivity].
+      apply path_eqb_eq in Ekq. subst k. rewrite (proj2 (path_eqb_neq p q)); [reflexivity|].
+      apply path_eqb_neq in Ekp. congruence.
+Qed.
+
+Lemma lookup_remove : forall (t : fs) p q, p <> [] ->
+  lookup (remove B t p) q = if path_eqb p q then None else lookup t q.
+Proof.
+  intros t p q Hp. destruct q as [|x q].
+  - simpl. destruct p; [contradiction | reflexivity].
+  - unfold lookup. apply assoc_remove.
+Qed.
+
+Lemma closed_remove : forall t p, tree_closed t -> p <> [] ->
+  (forall x, lookup t (p ++ [x]) = None) -> tree_closed (remove B t p).
+Proof.
+  intros t p Ht Hp Hch q x Hq. rewrite lookup_remove in Hq by exact Hp. rewrite lookup_remove by exact Hp.
+  destruct (path_eqb p (q ++ [x])) eqn:E1; [contradiction|].
+  destruct (path_eqb p q) eqn:E2.
+  - apply path_eqb_eq in E2. subst q. rewrite Hch in Hq. contradiction.
+  - apply Ht in Hq. exact Hq.
+Qed.
+
+Lemma unlink_ok : forall (t : fs) p d,
+  tree_closed t -> cleanb p = true -> lookup t p = Some (File d) ->
+  unlink_ B t p = inr (remove B t p).
+Proof.
+  intros t p d Ht Hc Hl. unfold unlink_.
+  assert (Hp : p <> []) by (intro E; subst p; simpl in Hl; discriminate).
+  rewrite (resolve_ok t p Ht Hc) by (right; eapply parent_dir; eauto).
+  fold (lookup t p). rewrite Hl. reflexivity.
+Qed.
+
 End FSP.
